@@ -118,7 +118,7 @@ pub fn plan(tier: &str, seed: u64) -> Vec<Batch> {
 }
 
 pub const FU_MAX_STEP: u64 = 260;
-pub const FU_ERRNOS: [i32; 4] = [libc::EMFILE, libc::ENOMEM, libc::EIO, libc::EACCES];
+pub const FU_ERRNOS: [i32; 5] = [libc::EMFILE, libc::ENOMEM, libc::EIO, libc::EACCES, libc::ENOENT];
 
 /// (variant, fault step, errno) of a first-use-fault run
 pub fn fu_decode(idx: u64) -> (usize, usize, i32) {
@@ -555,7 +555,7 @@ pub fn finalise(tier: &str, seed: u64, res: coord::CheckResult) -> i32 {
         tier,
         seed,
         "fault_enumeration",
-        "a finite matrix enumerated completely: directory mode {plain, sticky, world-writable, sticky+world-writable} x directory owner x link owner x caller uid (each from {0,1000,1001}; the caller thread switches its effective uid with a raw per-thread setresuid) x link position {trailing, intermediate} x facade x sysctl value {0,1} substituted at the seam in an E universe (one universe per value, since the library caches it per process); oracle: a transcription of may_follow_link() from fs/namei.c and of its call site (pick_link() applies it only to a *trailing* link - the last component of what is left to walk; a link in the middle of a path is followed unchecked); the K universe runs the same cells against the machine's real sysctl; first-use-fault: in a fresh process (sysctl=1) one errno from {EMFILE, ENOMEM, EIO, EACCES} is injected at every system call of the *first* lookup - the one during which the library reads and caches the sysctl - for a refused and an allowed cell, with the sysctl on and off, and two fault-free lookups follow: a refused link is never followed and the fault-free lookups obey the rule exactly (quick: every second placement; thorough: all); chained: a link (the caller's own) in directory D whose relative or absolute body starts with a second link in the root directory R, all combinations of mode bits of R and D and owners of the second link - each link is judged where it sits; swap: the link (refused for the caller) is exchanged with the caller's own link at every window of the lookup (and back one window later): the refused link's target is never returned; first-use-race: two threads of a fresh process run the first lookup, one switch from thread 0 to thread 1 at every step; distinct = every cell is a distinct configuration",
+        "a finite matrix enumerated completely: directory mode {plain, sticky, world-writable, sticky+world-writable} x directory owner x link owner x caller uid (each from {0,1000,1001}; the caller thread switches its effective uid with a raw per-thread setresuid) x link position {trailing, intermediate} x facade x sysctl value {0,1} substituted at the seam in an E universe (one universe per value, since the library caches it per process); oracle: a transcription of may_follow_link() from fs/namei.c and of its call site (pick_link() applies it only to a *trailing* link - the last component of what is left to walk; a link in the middle of a path is followed unchecked); the K universe runs the same cells against the machine's real sysctl; first-use-fault: in a fresh process (sysctl=1) one errno from {EMFILE, ENOMEM, EIO, EACCES, ENOENT} is injected at every system call of the *first* lookup - the one during which the library reads and caches the sysctl - for a refused and an allowed cell, with the sysctl on and off, and two fault-free lookups follow: a refused link is never followed and the fault-free lookups obey the rule exactly (quick: every second placement; thorough: all); chained: a link (the caller's own) in directory D whose relative or absolute body starts with a second link in the root directory R, all combinations of mode bits of R and D and owners of the second link - each link is judged where it sits; swap: the link (refused for the caller) is exchanged with the caller's own link at every window of the lookup (and back one window later): the refused link's target is never returned; first-use-race: two threads of a fresh process run the first lookup, one switch from thread 0 to thread 1 at every step; distinct = every cell is a distinct configuration",
         res,
         extra,
         vec!["the oracle is a five-line transcription of the kernel rule; the real kernel enforces it only when this machine's fs.protected_symlinks is 1 (recorded under machine_sysctl)".into()],
